@@ -510,6 +510,10 @@ func TestC02_Replay(t *testing.T) {
 		var s C07Set
 		json.Unmarshal(rf.Case, &s)
 		oerr = c07StackOracle(s)
+	case "lines":
+		var s C07Set
+		json.Unmarshal(rf.Case, &s)
+		oerr = c02LinesOracle(s, 40) // the order, if it is drawn, is drawn per call
 	case "repeat":
 		var w struct {
 			Config Config `json:"config"`
